@@ -67,6 +67,18 @@ func setVmsa(m *spb.VmcbSaveArea, v Values, t Table) error {
 	for _, f := range t.Fields {
 		fd := r.Descriptor().Fields().ByName(protoreflect.Name(f.Name))
 		if f.Name == "tail" {
+			// the bytes after xcr0: the message has three fields for them (valid_bitmap, x87_state_gpa, reserved_12)
+			if tv, ok := v["tail"].([]byte); ok && len(tv) >= 24 {
+				allZero := true
+				for _, b := range tv {
+					allZero = allZero && b == 0
+				}
+				if !allZero {
+					m.ValidBitmap = append([]byte{}, tv[:16]...)
+					m.X87StateGpa = binary.LittleEndian.Uint64(tv[16:24])
+					m.Reserved_12 = append([]byte{}, tv[24:]...)
+				}
+			}
 			continue
 		}
 		if fd == nil {
@@ -370,7 +382,7 @@ func RunC18(run *vk.Run) {
 				viol("out-of-range-accepted", "value %#x does not fit the %d-byte field but the encoder accepted it (wrote %x)", MaxOf(fld.Width)+1, fld.Width, b[fld.Off:fld.Off+fld.Width])
 			}
 		case "mbz_nonzero":
-			if !ad.mbz || p.Field == "tail" {
+			if !ad.mbz {
 				continue
 			}
 			// exact-width all-zero reserved bytes must be accepted
@@ -382,6 +394,18 @@ func RunC18(run *vk.Run) {
 			v[p.Field] = nz
 			if _, err := ad.enc(v, t.Size); err == nil {
 				viol("nonzero-reserved-accepted", "a non-zero reserved field is accepted")
+			}
+			if p.Field == "tail" {
+				// ... and each of the message's three fields for that area on its own
+				for _, at := range []int{0, 15, 16, 23, 24, 300} {
+					nz := make([]byte, fld.Width)
+					nz[at] = 0x80
+					v[p.Field] = nz
+					if _, err := ad.enc(v, t.Size); err == nil {
+						viol("nonzero-reserved-accepted", "a non-zero byte at offset %#x of the save area (a field that is zero at launch and that the encoding cannot carry) is accepted and dropped", fld.Off+at)
+						break
+					}
+				}
 			}
 		case "truncated":
 			if _, err := ad.enc(v, t.Size-1); err == nil && p.S != "HobHeader" && p.S != "HobHandoff" && p.S != "HobResource" {
